@@ -213,8 +213,6 @@ def _scc_label(tm, prog, scc):
     if pub:
         return 'through:' + sorted(pub)[0]
     imp = [m.name for m in members if m.impl_trait]
-    if imp:
-        return 'through:' + sorted(imp)[0]
     # a private recursion entered only through one public wrapper that returns its result (`exec` = `Eval::new(ctx).eval(self)`):
     # the recursion the public function stands for
     entries = set()
@@ -229,6 +227,8 @@ def _scc_label(tm, prog, scc):
                 entries.add(None)
     if len(entries) == 1 and None not in entries:
         return 'through:' + next(iter(entries))
+    if imp:
+        return 'through:' + sorted(imp)[0]
     return 'through:' + names[0]
 
 
